@@ -174,18 +174,19 @@ gpanic! { fn c16_clone_inside_with_raw_offset_arc_overflow_aborts() {
 
 // @h props=C14,C04 fuc=OffsetArc::eq,OffsetArc::ne,OffsetArc::fmt
 gproof! { fn c14_offset_eq_ne_debug_delegate() {
-    use crate::vrt::{Ip, OP_DEBUG, OP_EQ, OP_NE};
+    use crate::vrt::{Ip, OP_DEBUG};
+    use core::cmp::Ordering as O;
     let (n, m) = (any_count(), any_count());
     let a = Arc::into_raw_offset(mk(Ip(kani::any()), n));
     let b = Arc::into_raw_offset(mk(Ip(kani::any()), m));
     let (da, db) = (vrt::addr(&*a as *const Ip), vrt::addr(&*b as *const Ip));
-    unsafe { vrt::IP_BOOL = kani::any(); vrt::IP_FMT_OK = kani::any(); }
-    let e = a == b;
-    assert!(vrt::ip_only(OP_EQ) && vrt::ip_args(da, db) && e == unsafe { vrt::IP_BOOL });
-    let ne = a != b;
-    assert!(vrt::ip_calls(OP_NE) == 1 && vrt::ip_total() == 2 && vrt::ip_args(da, db) && ne == unsafe { vrt::IP_BOOL });
+    vrt::ip_setup(da, db);
+    assert!((a == b) == (vrt::ip_ord() == Some(O::Equal)));
+    assert!((a != b) == (vrt::ip_ord() != Some(O::Equal)));
+    assert!(vrt::ip_consulted());
+    let before = vrt::ip_total();
     let ok = vrt::debug_ok(&a);
-    assert!(vrt::ip_calls(OP_DEBUG) == 1 && vrt::ip_total() == 3 && vrt::ip_args(da, unsafe { vrt::FMT_ADDR }) && ok == unsafe { vrt::IP_FMT_OK });
+    assert!(vrt::ip_calls(OP_DEBUG) == 1 && vrt::ip_total() == before + 1 && vrt::ip_args(da, unsafe { vrt::FMT_ADDR }) && ok == unsafe { vrt::IP_FMT_OK });
     assert!(ocnt(&a) == n && ocnt(&b) == m);
     core::mem::forget(a);
     core::mem::forget(b);
